@@ -113,6 +113,22 @@ static void op_pc_param(int argc, char **argv) {
 		if (l == 0 || b == NULL) fprintf(OUT, ".");
 		for (int i = 0; i < l; i++) fprintf(OUT, "%s%d", i ? "," : "", b[i]);
 	}
+	/* what g1_is_valid / g2_is_valid / gt_is_valid branch on: the G1 cofactor, whether the endomorphism branches are compiled in,
+	 * the curve id test of the B12 branch, and the constants of ep_psi / ep2_frb the fast tests apply */
+	{
+		bn_t h1; bn_null(h1); bn_new(h1); ep_curve_get_cof(h1);
+		fprintf(OUT, " h1="); raw_print(h1->dp, h1->used, 0);
+		bn_free(h1);
+#if defined(EP_ENDOM)
+		fprintf(OUT, " vendom=1");
+		fprintf(OUT, " vbeta="); if (ep_curve_is_endom()) fp_pv(ep_curve_get_beta()); else fprintf(OUT, "0");
+#else
+		fprintf(OUT, " vendom=0 vbeta=0");
+#endif
+		fprintf(OUT, " vb383=%d", core_get()->ep_id == B12_383);
+		fprintf(OUT, " vfrb0="); fp2_printx(core_get()->ep2_frb[0]);
+		fprintf(OUT, " vfrb1="); fp2_printx(core_get()->ep2_frb[1]);
+	}
 	fputc('\n', OUT);
 }
 
